@@ -36,8 +36,21 @@ func c24(r *core.Report, p *core.Prog, thorough bool) {
 		r.Unresolved("C24.validated", "freeAllocationRequest/validate/getFreeStorageAssigner/save/addFreeStorageAssigner/verifyFreeAllocationRequestNew/fields")
 		return
 	}
+	// the marker: the one freeStorageMarker object of the request, whatever it is called and
+	// whether decoded in place or by a helper that returns it (identified by its type)
+	isMarker := func(v ssa.Value) bool {
+		root, path := core.BaseObject(v)
+		if root == nil || path != "" {
+			return false
+		}
+		return core.NamedName(derefType(root.Type())) == pkgStorage+".freeStorageMarker"
+	}
 	isMarkerField := func(v ssa.Value, field string) bool {
-		return describe(v) == "local:marker."+field || strings.HasSuffix(describe(v), "marker."+field)
+		if describe(v) == "local:marker."+field || strings.HasSuffix(describe(v), "marker."+field) {
+			return true
+		}
+		root, path := core.BaseObject(v)
+		return root != nil && path == "."+field && core.NamedName(derefType(root.Type())) == pkgStorage+".freeStorageMarker"
 	}
 	fromFreeTokens := func(v ssa.Value) bool {
 		c, idx := core.CallOf(v)
@@ -62,7 +75,7 @@ func c24(r *core.Report, p *core.Prog, thorough bool) {
 	okLoad := isMarkerField(getCall.Call.Args[1], "Assigner") && core.ErrLeadsToFailure(getCall)
 	r.Check(okLoad, "C24.validated", "freeAllocationRequest:assigner-of-marker", p.Pos(getCall.Pos()), "the assigner is loaded for marker.Assigner and a load error aborts")
 	va := valCall.Call.Args
-	okVal := len(va) == 5 && assignerOf(va[0]) && strings.HasSuffix(describe(va[1]), "marker") && fromFreeTokens(va[3]) && core.ErrLeadsToFailure(valCall)
+	okVal := len(va) == 5 && assignerOf(va[0]) && (strings.HasSuffix(describe(va[1]), "marker") || isMarker(va[1])) && fromFreeTokens(va[3]) && core.ErrLeadsToFailure(valCall)
 	r.Check(okVal, "C24.validated", "freeAllocationRequest:validate-args", p.Pos(valCall.Pos()), "validate(marker, …, ParseZCN(marker.FreeTokens), …) on the loaded assigner; its error aborts; got marker="+describe(va[1])+" value="+describe(va[3]))
 	// ---- state-writing calls
 	nW := 0
@@ -292,6 +305,16 @@ func c24Validate(r *core.Report, p *core.Prog, val, verify *ssa.Function, nonces
 		r.Check(okTot, "C24.validate-body", key("total-limit"), p.Pos(ret.Pos()), "CurrentRedeemed + value (checked) <= TotalLimit must hold")
 		r.Check(okInd, "C24.validate-body", key("individual-limit"), p.Pos(ret.Pos()), "value <= IndividualLimit must hold")
 		okScan := scanHdr != nil && scanHdr.Dominates(b) && !inLoopOf(val, scanHdr, b)
+		// or a boolean membership helper of the assigner: `if fsa.hasRedeemed(marker.Nonce) { return err }`
+		for _, cf := range callFacts(b) {
+			h := core.StaticCallee(cf.Call.Common())
+			if cf.Taken || h == nil || h.Blocks == nil || h.Pkg != val.Pkg || len(cf.Args) != 2 || len(h.Params) != 2 {
+				continue
+			}
+			if core.ParamOf(cf.Args[0]) == fsa && isNonce(cf.Args[1]) && c24MembershipHelper(h, "RedeemedNonces") {
+				okScan = true
+			}
+		}
 		// or the library membership test: slices.Contains(fsa.RedeemedNonces, marker.Nonce) == false
 		for _, f := range core.FactsAt(b) {
 			cond, taken := core.NormCond(f.Cond, f.Taken)
@@ -352,4 +375,57 @@ func c24BoundIsLen(l *core.Loop, idx, slice ssa.Value) bool {
 	}
 	lc, ok := bo.Y.(*ssa.Call)
 	return ok && core.CalleeName(lc.Common()) == "builtin.len" && lc.Call.Args[0] == slice && l.Body[h.Succs[0]] && !l.Body[h.Succs[1]]
+}
+
+// c24MembershipHelper: h(recv, x) bool ranges completely over recv.<field>, answers true
+// exactly where an element equals x, and false only after the loop.
+func c24MembershipHelper(h *ssa.Function, field string) bool {
+	recv, x := h.Params[0], h.Params[1]
+	okLoop := false
+	var loop RangeLoop
+	for _, rl := range RangeLoops(h) {
+		root, path := core.BaseObject(rl.Slice)
+		if core.ParamOf(root) == recv && path == "."+field {
+			loop, okLoop = rl, true
+		}
+	}
+	if !okLoop {
+		return false
+	}
+	hit := false
+	for b := range loop.L.Body {
+		for _, in := range b.Instrs {
+			bo, ok := in.(*ssa.BinOp)
+			if !ok || bo.Op != token.EQL {
+				continue
+			}
+			if !((loop.IsElem(bo.X) && core.ParamOf(bo.Y) == x) || (loop.IsElem(bo.Y) && core.ParamOf(bo.X) == x)) {
+				continue
+			}
+			ifi, ok := b.Instrs[len(b.Instrs)-1].(*ssa.If)
+			if !ok || ifi.Cond != ssa.Value(bo) {
+				continue
+			}
+			ts := b.Succs[0]
+			if ret, isRet := ts.Instrs[len(ts.Instrs)-1].(*ssa.Return); isRet && len(ret.Results) == 1 {
+				if k, isK := ret.Results[0].(*ssa.Const); isK && k.Value != nil && k.Value.ExactString() == "true" {
+					hit = true
+				}
+			}
+		}
+	}
+	if !hit {
+		return false
+	}
+	// every `false` return lies after the completed loop
+	for _, ret := range core.Returns(h) {
+		k, isK := ret.Results[0].(*ssa.Const)
+		if !isK || k.Value == nil {
+			return false
+		}
+		if k.Value.ExactString() == "false" && !(loop.L.Header.Succs[1].Dominates(ret.Block())) {
+			return false
+		}
+	}
+	return true
 }
